@@ -19,7 +19,7 @@ from .odecommon import expected_aliases
 LEVEL = "exploration"
 
 # species data by construction: name -> (mass number, charge)
-GAS = {"H": (1, 0), "H2": (2, 0), "O": (16, 0), "OH": (17, 0), "CO": (28, 0), "H2O": (18, 0), "CH3OH": (32, 0), "HCO": (29, 0), "HCO+": (29, 1), "CO2": (44, 0), "H3O+": (19, 1), "OH-": (17, -1)}
+GAS = {"H": (1, 0), "H2": (2, 0), "O": (16, 0), "OH": (17, 0), "CO": (28, 0), "H2O": (18, 0), "CH3OH": (32, 0), "HCO": (29, 0), "HCO+": (29, 1), "CO2": (44, 0), "H3O+": (19, 1), "OH-": (17, -1), "C+": (12, 1), "C": (12, 0)}
 EB_RATE12 = {"H": 600.0, "H2": 430.0, "O": 800.0, "OH": 2850.0, "CO": 1150.0, "H2O": 4800.0, "CH3OH": 4930.0, "HCO": 1600.0, "CO2": 2990.0}
 NO_EB = "C2H5C2H5O"  # an ice species without RATE12 entry (checked against the data file)
 
@@ -81,6 +81,9 @@ def reactions_for(path, model, variant, tier="quick"):
             add("recombination", ["HCO+"], 1.0, ["HCO+", "GRAIN-"], ["HCO", "GRAIN0"], 6)
             add("recombination", ["H3O+"], 0.5, ["H3O+", "GRAIN-"], ["H2O", "H", "GRAIN0"], 6)
             add("ecapture", [], 1.0, ["e-", "GRAIN0"], ["GRAIN-"], 20)
+            # the order of the two reactants is free: grain first
+            add("recombination", ["C+"], 1.0, ["GRAIN-", "C+"], ["C", "GRAIN0"], 6)
+            add("ecapture", [], 0.5, ["GRAIN0", "e-"], ["GRAIN-"], 20)
     elif path == "uclchem":
         for i, g in enumerate(["CO", "H2O", "CH3OH", "H2"]):
             add("freeze", [g], al[i % 2], [g], [pre + g], None, "FREEZE")
@@ -116,6 +119,8 @@ def reactions_for(path, model, variant, tier="quick"):
         if variant.get("grainspec"):
             add("recombination", ["HCO+"], 1.0, ["HCO+", "GRAIN-"], ["HCO", "GRAIN0"], codes["recombination"])
             add("ecapture", [], 1.0, ["e-", "GRAIN0"], ["GRAIN-"], codes["ecapture"])
+            add("recombination", ["C+"], 1.0, ["GRAIN-", "C+"], ["C", "GRAIN0"], codes["recombination"])
+            add("ecapture", [], 0.5, ["GRAIN0", "e-"], ["GRAIN-"], codes["ecapture"])
     return R
 
 
